@@ -70,29 +70,75 @@ def histogram(line):
 
 
 COMMON_TRUSTED = [
-    "Coq 8.16.1 kernel (coqc); Flocq 4.1 BinarySingleNaN as the definition of binary32 arithmetic and comparison",
-    "extraction: ExtrOcamlBasic only (nat, Z, positive, list kept as extracted inductives); OCaml 4.13.1",
-    "hand-written OCaml driver ocaml/scan/driver.ml (parsing, printing, calling the extracted checkers "
-    "check_c02 / check_c03 on the implementation's observations, comparison with the extracted model)",
+    "Coq 8.16.1 kernel (coqc); vm_compute is used for closed computations only (the worked example Ex of "
+    "ConcreteProofs.v / DiscLink.v / DiscBridge.v, the toy-instance field deviations and C02_source_skeleton "
+    "(gen_shape = ref_shape) of C02Source.v / C03Source.v, the 64-bit overflow witnesses of the _refuted theorems of "
+    "C02Total.v / C03Total.v); no native_compute; Flocq 4.1 BinarySingleNaN as the definition of binary32 arithmetic "
+    "and comparison",
+    "extraction: ExtrOcamlBasic only (its Extract Inductive directives for bool, option, list, prod, unit, sumbool, "
+    "sumor); no other Extract Inductive and no Extract Constant (nat, N, Z, positive stay extracted inductives); "
+    "OCaml 4.13.1",
+    "hand-written OCaml driver ocaml/scan/driver.ml: parsing and printing; the choice WHICH extracted checker runs on "
+    "which observation; the DIFF comparisons with the extracted models (equality of lists of ints, same_consumed, "
+    "is_prefix of the hits yielded before an overflow panic against the word-level model); SCAN_DRIVER_ALL=1 prints "
+    "every verdict of a case on stderr (a DIFF behind a PROPFAIL is otherwise hidden)",
+    "PROPFAIL decisions: all made by extracted functions - check_c02 (C02_check_sound / _complete; also on hit lists "
+    "the harness cut off after rows*C+4 hits, which it necessarily rejects: a pass would be a DIFF), check_take "
+    "(C02_check_take_sound / _complete), check_c03 (C03_check_sound / _complete), same_answer (C03_same_answer_spec: "
+    "max-depends-on-block-size), check_sw (C02_check_sw_sound) and check_swmax (C03_check_swmax_sound) for the setter "
+    "observations (a weak property of our own, stated in Coq). What remains hand-written on a PROPFAIL path: "
+    "`panic => PROPFAIL when pre_ok` (score_position-panicked, panic-in-new, panic-after-n-hits, take(k)-panicked, "
+    "sw-panicked, max-panicked, maxb-panicked, swmax-panicked: the gate pre_ok is extracted, C02_pre_ok_spec, the "
+    "verdict itself is an `if`); `sw-more-hits-than-cells` (the harness stopped the iteration after the setters at "
+    "rows*C+4 hits); the WORDING of the detail after a checker returned false (missing / spurious / duplicate, "
+    "take(k)-length / -duplicate / -spurious, sw-* and swmax-* diagnostics, `...-rejected` when none of them fires); "
+    "the notes c08-prefilter-not-conservative(.., wc=<extracted wc_input>) and usize-overflow(row+block_size) (= the "
+    "extracted word-level model with overflow checks returned Panic 40) appended to a detail. No fail-open path: "
+    "every skipped comparison (sc=P, new=P, model out of fuel, unparsable field) sets DIFF or PROPFAIL",
     "Rust harness harness/src/bin/scan.rs (generator, ScoringMatrix/StripedSequence construction through the public "
-    "API, Scanner::new(..).threshold(..).block_size(..), next()/take()/max() under catch_unwind, backend hook "
-    "pli::verif::force_backend); the per-position scores the checkers use are the implementation's own "
-    "ScoringMatrix::score_position values",
+    "API, Scanner::new(..).threshold(..).block_size(..), next()/take()/max() under catch_unwind, the setters between "
+    "calls (`sw=` / `swmax=`), max() under a second block size (`maxb=`), the runtime probe of the build profile "
+    "`ovf=c|w`, backend hook pli::verif::force_backend); the per-position scores the checkers use are the "
+    "implementation's own ScoringMatrix::score_position values",
     "the tie: that the hand-written model ScanModel.v/ScanConcrete.v follows scan.rs, pwm/mod.rs "
     "(to_discrete, scale, score_position), seq.rs (Index<usize>) and the guards of the score_rows_into wrappers is "
-    "checked by bit-exact replay on every run (hits in yield order, take(k), max() after k next(), panics), not proved",
+    "checked by bit-exact replay on every run (hits in yield order, take(k), max() after k next(), consumed hits by "
+    "position and score bits, panics), not proved",
     "modelled by their specification inside the concrete model, not verified here (properties C04/C07/C08 of other "
     "groups): the striped layout made by Stripe::stripe + configure_wrap (cell (r,c) = symbol c*R+r, wildcard past L), "
     "the AVX2 u8 kernel (= saturating sum of discrete cells), Maximum<u8>::max (largest cell), "
     "Threshold<u8>::threshold (cells >= t, row-major); exercised by the replay on every run under all three arms; "
     "coq/e2e proves these specifications equal to the kernel models of the owning groups (e2e_kernels_agree_with_specs, an "
     "obligation of the thorough tier)",
-    "not modelled: usize overflow of row + block_size (unreachable: only evaluated when row < R and row is 0 or >= B), "
-    "the unused f32 `scores` buffer of the Scanner, Scanner::scores(); block_size = 0 (never returns; outside the "
-    "property, rejected by the Python binding)",
-    "translator translate/scan_skel.py (regex/template reader of scan.rs; a body that does not match the template is a "
-    "broken obligation; `python3 translate/scan_skel_selftest.py` checks 9 harmless rewrites and 24 mutations); that "
-    "`Scanner::threshold` / `Scanner::block_size` only overwrite their field (ScanSwitch.v) is tied by replay only",
+    "usize arithmetic of `row + block_size` is modelled in coq/scan/ScanWord.v (word size and checked / wrapping / "
+    "saturating add as parameters; WordProofs.v, SatProofs.v) and proved irrelevant for a block size set before the "
+    "first call (C02_word_scanner_eq: 1 <= B < 2^64, 2R <= 2^64). With the plain `+` of the source before /repo commit "
+    "3bcb63a it was NOT irrelevant when `Scanner::block_size` is called between calls with B' > 2^64 - R (finding "
+    "F-scan-ovf, review top-15 item 6: panic in dev, duplicate hits / a consumed position from max() in release; "
+    "C02_word_setters_any_block_size_refuted, C03_word_setters_max_any_block_size_refuted; the earlier sentence "
+    "'overflow unreachable' was wrong for this call sequence). 3bcb63a replaced the four additions by "
+    "`self.row.saturating_add(self.block_size)`: translate/scan_skel.py reads the KIND of the four additions "
+    "(GenScan.gen_row_add_saturating, today true; all four must be of the same kind, wrapping_add / checked_add do not "
+    "parse), WordSource.gen_ovf then selects the Saturating mode for both build profiles, and "
+    "C02_word_saturating_setters_sound / C02_word_saturating_scanner_eq / C02_source_setters_between_calls_sound / "
+    "C03_source_setters_max_eq hold for ANY new block size; known_findings.d/scan.json lists F-scan-ovf-c02 / -c03 as "
+    "fixed and the witnesses corpus/C0{2,3}/wave3_overflow.txt must pass. The word-level model is tied by the `sw=` / "
+    "`swmax=` replays (always when B or B' > 10^7, else on one arm per case next to the nat-level one) in the mode "
+    "gen_ovf gives for the profile the harness reports; the `extra` step release_overflow_tie additionally runs the "
+    "overflow witnesses through the RELEASE harness with SCAN_DRIVER_ALL=1 (any DIFF line or missing verdict is a "
+    "broken tie; skipped under VERIF_NO_RELEASE=1)",
+    "for block sizes above 10^7 the replay of the skeleton scanner (ShapeConcrete.v) is skipped and the word-level "
+    "model replaces the unary nat-level one (histogram keys block-size>1e7(word-level-model-only,"
+    "skeleton-replay-skipped) and new-block-size>1e7(word-level-model-only)); C02_word_scanner_eq proves the two equal",
+    "not modelled: the unused f32 `scores` buffer of the Scanner, Scanner::scores(); block_size = 0 (never returns; "
+    "outside the property, rejected by the Python binding)",
+    "translator translate/scan_skel.py (regex/template reader of lightmotif/src/scan.rs: the statement skeleton of "
+    "Iterator::next and of the Iterator::max override, the field initialisers of Scanner::new, the kind of the four "
+    "row additions -> coq/scan/GenScan.v; a body that does not match the template is a broken obligation; "
+    "`python3 translate/scan_skel_selftest.py` applies harmless rewrites, which must read the same skeleton, and the "
+    "deliberate mutations of notes/scan.md, which must read a different one or fail to parse); that "
+    "`Scanner::threshold` / `Scanner::block_size` only overwrite their field (ScanSwitch.v, ScanWord.v wswitch_*) is "
+    "tied by replay only",
 ]
 
 def release_overflow_tie(prop):
@@ -175,8 +221,10 @@ SPEC = dict(
          "iteration to exhaustion (hits in yield order, position + score bits), two take(k) prefixes, and the "
          "brute-force score_position of every position. PROPFAIL: the extracted checker check_c02, proved sound in Coq "
          "(C02_check_sound: true => the hit list has no duplicate position and contains (i,s) iff s is the score of "
-         "position i and s >= thr), on the implementation's own scores; take(k) = min(k,#qualifying) distinct "
-         "qualifying hits; any panic on a configured input. DIFF: bit-exact comparison with the extracted binary32 "
+         "position i and s >= thr), on the implementation's own scores (also on a hit list the harness cut off after rows*C+4 "
+         "hits); take(k) by the extracted checker check_take (C02_check_take_sound: true => min(k,#qualifying) distinct "
+         "qualifying hits with exact scores; C02_check_take_complete); any panic on an input that satisfies the extracted "
+         "predicate pre_ok (C02_pre_ok_spec: configured input). DIFF: bit-exact comparison with the extracted binary32 "
          "scanner model incl. yield order and panic sites. Non-trivial: distinct (M, L, B, wrap, thr, matrix) with "
          "L >= M and wrap >= M-1. Theorems (C02.v, 17): C02_scan_sound, C02_take_sound (unconditional), C02_scan_complete, "
          "C02_next_total, C02_take_prefix (all B >= 1, all R/Lm incl. L<M, L=0, R multiple of B, any threshold; under "
@@ -191,8 +239,12 @@ SPEC = dict(
          "predicate - evaluated by the driver as wc_input on every lost hit - the concrete binary32 scanner yields exactly "
          "the qualifying positions; through DiscBridge.v: the two models of to_discrete / scale / the window scores agree), "
          "C02_concrete_sound; C02_setters_between_calls_sound / C02_concrete_setters_between_calls_sound (after k calls of next() "
-         "under (thr, B), lowering or keeping the threshold and ANY new block size: the first k hits meet thr, all hits are valid "
-         "positions with exact scores meeting the new threshold, no position twice; soundness only). "
+         "under (thr, B), lowering or keeping the threshold and changing the block size: the first k hits meet thr, all hits are valid "
+         "positions with exact scores meeting the new threshold, no position twice; soundness only; these nat-level statements say "
+         "ANY B' of a model without word size - their reading 'of the code' is the word-level C02_word_setters_between_calls_sound "
+         "(plain `+`: any new block size B' <= 2^64 - R; beyond the bound the code before /repo 3bcb63a panicked or yielded "
+         "duplicates: C02_word_setters_any_block_size_refuted, finding F-scan-ovf) and, for the repaired source with "
+         "saturating_add, C02_word_saturating_setters_sound / C02_source_setters_between_calls_sound: ANY B'). "
          "Translator translate/scan_skel.py re-reads scan.rs on every run into coq/scan/GenScan.v (22-field statement skeleton of "
          "Iterator::next / the Iterator::max override + the field initialisers of Scanner::new); C02Source.v (8 theorems: "
          "C02_source_skeleton, C02_source_defaults, C02_source_model_eq, C02_source_concrete_eq, C02_source_scan_sound, "
@@ -203,10 +255,28 @@ SPEC = dict(
          "14 % of the cases, up to 40 extra rows), 1/8 of the cases with a partial last block and spare wrap rows for a full one, "
          "block sizes 4,5,6,9,12,32,33,40 in addition, per-row N cells above the best base, thresholds 1..3 floats around attained "
          "scores, wide motifs (M 100..299 quick, ..2000 thorough), setters called between calls of next() (`sw=`: DIFF against "
-         "ScanSwitch.v + a weak judge in the driver; the theorem covers soundness for a lowered threshold only). The corpus (run first) holds boundary cases, the inputs on which seven deliberate "
+         "ScanSwitch.v and the word-level model + the extracted judge check_sw, a weak property of our own, C02_check_sw_sound; "
+         "the theorems cover soundness for a lowered or kept threshold only). The corpus (run first) holds boundary cases, the inputs on which seven deliberate "
          "mutations of scan.rs and the seeded changes were caught, the witnesses of the repaired defect F14b (must pass) and "
          "the witness of the known finding F14-c02; corpus/C02/round3.txt (13 cases: spare wrap rows, 30+ extra wrap rows, N above the "
-         "best base, one wide motif, setters between calls) and round3_mutation_witnesses.txt.",
+         "best base, one wide motif, setters between calls) and round3_mutation_witnesses.txt. "
+         "C02Total.v (wave 3; 13: 9 property/model theorems, 4 judge specifications): C02_scan_total, C02_concrete_total (no panic / "
+         "termination of next() from every state, take(k), exhaustion under the layout hypotheses only - no hypothesis on the 8-bit "
+         "pre-filter, so also on ill-conditioned matrices (known finding F14: hits can be lost, nothing panics or hangs); the result "
+         "is sound), C02_word_scanner_eq, C02_word_scan_complete (usize-level scanner of coq/scan/ScanWord.v: block size fixed before "
+         "the first call, any 1 <= B < 2^64, 2R <= 2^64, checked / wrapping / saturating add alike), "
+         "C02_word_setters_between_calls_sound, C02_word_setters_any_block_size_refuted (B' = 2^64-1 after 3 calls: Panic 40 with "
+         "overflow checks, duplicate hits when wrapping, right answer when saturating), C02_word_saturating_setters_sound, "
+         "C02_word_saturating_scanner_eq, C02_source_setters_between_calls_sound (at the add kind the translator reads from scan.rs: "
+         "bound R + B' <= 2^64 with `+`, none with saturating_add - the source since /repo 3bcb63a), C02_check_take_sound / _complete, "
+         "C02_pre_ok_spec, C02_check_sw_sound. C02Source.v's 8 theorems are TIE theorems (rewrites through gen_shape = ref_shape), not "
+         "additional property strength. PROPFAIL decisions are all made by extracted functions: check_c02 (also for hit lists cut off "
+         "by the harness), check_take, check_sw (setters between calls), pre_ok (gate of panic => PROPFAIL). Generator (wave 3): "
+         "block sizes usize::MAX, usize::MAX-1, 2^63, 2^32, 10^8 in 1/40 of the cases (word-level model replayed, skeleton replay "
+         "skipped), B2 = 2^64 - d (d in {1, 2, R, R+1, random <= 2R+2}) after k calls in 1/6 of the sw cases; "
+         "corpus/C02/wave3_overflow.txt (ovf0-3, ovfb, bigB1-3: the witnesses of the repaired F-scan-ovf, which must pass, the "
+         "no-overflow boundary 2^64 - R and huge block sizes set before iteration), run in the dev profile and, by the `extra` step, "
+         "through the release build.",
     trusted_base=COMMON_TRUSTED,
     assumptions=[
         "conservative (property C08) at the scanner's threshold: a valid position whose f32 score is >= thr has an "
@@ -230,5 +300,13 @@ SPEC = dict(
         "input side conditions of the property: block size >= 1, motif not empty, sequence configured for the motif; "
         "no NaN among the non-wildcard matrix cells (to_discrete unwraps partial_cmp: Scanner::new panics, compared "
         "with the model only)",
+        "block size fixed before the first call (the property text) - or changed between calls: with the plain `+` of the "
+        "source before /repo 3bcb63a only to B' <= 2^64 - R (C02_word_setters_between_calls_sound), with the repaired "
+        "saturating_add to any B' (C02_word_saturating_setters_sound; C02_source_setters_between_calls_sound carries the "
+        "hypothesis `gen_row_add_saturating = true or R + B' <= 2^64`, whose first disjunct the translator's constant makes "
+        "true today); word-level theorems assume 1 <= B < 2^64 and 2R <= 2^64",
+        "the theorems that carry the C08 hypothesis (C02_concrete_scan, C02_concrete_scan_explicit, C02_concrete_scan_c08) "
+        "are PARTIAL in the sense of the guide (names kept without `_partial`: coq/e2e refers to them by name); totality "
+        "needs no numeric hypothesis (C02_scan_total, C02_concrete_total: layout hypotheses only)",
     ],
 )
